@@ -267,9 +267,102 @@ def heap_order(ctx):
     ctx.count("scheduler-order-batches", n_batches)
 
 
+# ---------------------------------------------------------------------------------------------------------------------
+# times are values: sessions over Time *objects* (in-place `update`, results of `+`, the module-level `inf`)
+
+def object_sessions(ctx):
+    """Eight registers hold real `Time` objects; a session is a random sequence of `Time(q, r)`, `from_float`, `regs[i] = regs[j] + d`,
+    `regs[i].update(regs[j])` (the in-place mutator used for time stamps), comparisons and subtractions. The Lean register model
+    (`JF.Time.Regs`: values, no sharing) runs the same lines. After every mutating step ALL registers are compared (fields, bit for
+    bit), so state shared between objects or cached inside one shows up at once; the oracle evaluates the property's comparison
+    clause on every ordered pair of registers against the exact order of the objects' own fields, and checks that the module-level
+    infinity and every `t + inf` obtained so far are still infinite."""
+    import jellyfysh.base.time as tmod
+    from jellyfysh.base.time import Time
+    rng = ctx.rng
+    n_sessions = ctx.n(150, 4000)
+    for sidx in range(n_sessions):
+        regs = [Time(0.0, 0.0) for _ in range(8)]
+        lines, impl = [], []
+        infs = []                       # results of `t + inf`: must stay infinite for ever
+        steps = rng.randint(6, 40)
+        hist = []
+        for _ in range(steps):
+            c = rng.random()
+            i, j = rng.randrange(8), rng.randrange(8)
+            try:
+                if c < 0.15:
+                    q, r = gen_time(rng)
+                    regs[i] = Time(q, r); line = f"rnew {i} {f2b(q)} {f2b(r)}"; hist.append(f"r{i} = Time({q!r}, {r!r})")
+                elif c < 0.22:
+                    x = gen_disp(rng, 0.0)
+                    regs[i] = Time.from_float(x); line = f"rff {i} {f2b(x)}"; hist.append(f"r{i} = Time.from_float({x!r})")
+                elif c < 0.5:
+                    d = gen_disp(rng, regs[j].remainder if 0.0 <= regs[j].remainder < 1.0 else 0.0)
+                    if math.isinf(regs[j].quotient):
+                        continue        # left operands are finite (the property's quantifier)
+                    regs[i] = regs[j] + d; line = f"radd {i} {j} {f2b(d)}"; hist.append(f"r{i} = r{j} + {d!r}")
+                    if math.isinf(d):
+                        infs.append(regs[i])
+                elif c < 0.75:
+                    if i == j:
+                        continue
+                    infs = [t for t in infs if t is not regs[i]]      # the harness itself overwrites this object: legitimate
+                    regs[i].update(regs[j]); line = f"rupd {i} {j}"; hist.append(f"r{i}.update(r{j})")
+                elif c < 0.9:
+                    a, b = regs[i], regs[j]
+                    res = [a == b, a < b, a > b, a <= b, a >= b]
+                    clt = a.quotient < b.quotient or (a.quotient == b.quotient and a.remainder < b.remainder)
+                    lines.append(f"rcmp {i} {j}"); impl.append(" ".join("1" if x else "0" for x in res + [clt]))
+                    continue
+                else:
+                    if math.isinf(regs[i].quotient) or math.isinf(regs[j].quotient):
+                        continue
+                    lines.append(f"rsub {i} {j}"); impl.append(f2b(regs[i] - regs[j]))
+                    continue
+            except Exception as e:
+                ctx.fail("objects:exception", {"history": hist[-12:]}, f"implementation raised {e!r}")
+                break
+            lines.append(line); impl.append(f"{f2b(regs[i].quotient)} {f2b(regs[i].remainder)}")
+            lines.append("rdump"); impl.append(" ".join(f"{f2b(t.quotient)} {f2b(t.remainder)}" for t in regs))
+            # oracle: comparisons of every ordered pair agree with the exact order of the objects' own fields
+            for a_i, a in enumerate(regs):
+                for b_i, b in enumerate(regs):
+                    fa, fb = (a.quotient, a.remainder), (b.quotient, b.remainder)
+                    if any(math.isnan(v) for v in fa + fb):
+                        continue
+                    if math.isinf(fa[0]) or math.isinf(fb[0]):
+                        want = ([True, False, False, True, True] if (math.isinf(fa[0]) and math.isinf(fb[0])) else
+                                [False, True, False, True, False] if math.isinf(fb[0]) else [False, False, True, False, True])
+                    else:
+                        va, vb = Fr(fa[0]) + Fr(fa[1]), Fr(fb[0]) + Fr(fb[1])
+                        want = [va == vb, va < vb, va > vb, va <= vb, va >= vb]
+                    res = [a == b, a < b, a > b, a <= b, a >= b]
+                    if res != want:
+                        ctx.fail("objects:cmp-order-after-history", {"history": hist[-12:], "a": f"r{a_i} = ({fa[0]!r}, {fa[1]!r})",
+                                                                     "b": f"r{b_i} = ({fb[0]!r}, {fb[1]!r})"},
+                                 f"comparisons {res} of two time objects != exact order {want} of their quotient + remainder")
+            for t in infs + [tmod.inf]:
+                if not (math.isinf(t.quotient) and t.quotient > 0 and t == tmod.inf and Time(float(2 ** 52), 0.5) < t):
+                    ctx.fail("objects:infinity-not-absorbing-after-history", {"history": hist[-12:], "value": repr(t)},
+                             "a result of t + inf (or the module-level inf) is no longer the infinite time")
+        ctx.evaluations += len(lines)
+        ctx.cls(("objects", steps // 10, sum(1 for h in hist if "update" in h) > 1, bool(infs)))
+        rep = ctx.model("time", lines)
+        for ln, im, rl in zip(lines, impl, rep):
+            if im != rl:
+                ctx.disagree("time.objects (register session: values vs objects)", {"history": hist[-12:], "request": ln}, im, rl)
+                break
+        # restore a sane module-level inf for the rest of the run if an implementation under test damaged it
+        if not math.isinf(tmod.inf.quotient):
+            tmod.inf.update(Time(math.inf, math.inf))
+    ctx.count("object-sessions", n_sessions)
+
+
 _run_time_class = run
 
 
 def run(ctx):
     _run_time_class(ctx)
+    object_sessions(ctx)
     heap_order(ctx)
